@@ -156,6 +156,46 @@ def historyReq (j : Json) : Except String Json := do
   let exprs ← (← getList (← field j "exprs")).mapM (fun x => x.getStr?)
   pure (Json.arr (historyRun tbl alg steps ⟨[], []⟩ ⟨[], []⟩ exprs).toArray)
 
+/-- toPostfix form of a term (flat, so that terms thousands of operators deep can be transported) -/
+def toPostfix : Term → List String → List String
+  | .num s, acc => ("n:" ++ String.ofList s) :: acc
+  | .e, acc => "e" :: acc
+  | .un f t, acc => toPostfix t (("u:" ++ fn1Name f) :: acc)
+  | .bin f a b, acc => toPostfix a (toPostfix b (("b:" ++ fn2Name f) :: acc))
+
+def outPostfix : Except String (Tok Term) → Json
+  | .error m => Json.mkObj [("err", jstr m)]
+  | .ok (.atom t) => Json.mkObj [("postfix", jarr jstr (toPostfix t []))]
+  | .ok .none => jstr "none"
+  | .ok (.op i _) => Json.mkObj [("op", jnat i)]
+
+def parseOperand (j : Json) : Except String E := do
+  let signs ← (← getList (← field j "signs")).mapM (fun x => x.getBool?)
+  let t ← (← field j "lit").getStr?
+  pure (signs.foldr (fun s e => E.sign s e) (E.num t.toList))
+
+/-- A long flat chain `x0 o1 x1 o2 x2 …` of one nesting level (operands: literals with sign runs),
+    optionally wrapped in a call: built by left folding, rendered, evaluated and solved here. -/
+def chainReq (j : Json) : Except String Json := do
+  let first ← parseOperand (← field j "first")
+  let rest ← (← getList (← field j "rest")).mapM (fun x => do
+    let o ← parseB2 (← (← field x "op").getStr?)
+    let e ← parseOperand x
+    pure (o, e))
+  let chain := rest.foldl (fun l (p : B2 × E) => E.bin p.1 l p.2) first
+  let e ← match (← field j "wrap") with
+    | Json.null => pure chain
+    | Json.str "powb" => pure (E.fn2 .powb chain (.num ['2']))
+    | Json.str f => pure (E.fn1 (← parseF1 f) chain)
+    | _ => throw "bad wrap"
+  let bl ← getNatList (← field j "bl")
+  let tbl := SciVerif.C01.Gen.dflt
+  let steps := SciVerif.C01.Gen.dfltSteps
+  let text := render bl e
+  pure (Json.mkObj [("text", jstr (String.ofList text)), ("wf", Json.bool e.wf),
+    ("spec", jarr jstr (toPostfix (eval termAlg Term.num e) [])),
+    ("model", outPostfix (solve tbl termAlg steps text))])
+
 def handle (j : Json) : Except String Json := do
   let k ← (← field j "k").getStr?
   match k with
@@ -163,6 +203,7 @@ def handle (j : Json) : Except String Json := do
   | "spec" => specReq j
   | "lit" => litReq j
   | "history" => historyReq j
+  | "chain" => chainReq j
   | _ => throw s!"C01: unknown kind {k}"
 
 end SciVerif.C01.Drive
